@@ -33,17 +33,30 @@ type Place struct {
 }
 
 type Lit struct {
-	K     string  `json:"k"` // li | ln | la | rd
+	K     string  `json:"k"` // li | ln | ls | la | rd
 	N     int     `json:"n,omitempty"`
+	S     string  `json:"s,omitempty"` // ls: the string ([a-z0-9]+)
 	Items []Lit   `json:"items,omitempty"` // positional items only (a keyed literal is a different runtime type)
 	P     *Place  `json:"p,omitempty"`
 }
 
-type RV struct {
-	K string `json:"k"` // int | null | lit | rd | call
+// Upd is the pure function of a compound assignment (Model.Heap.Upd).
+type Upd struct {
+	K string `json:"k"`           // concat | add | mul | coalesce
+	S string `json:"s,omitempty"` // concat: the suffix ([a-z0-9]+)
 	N int    `json:"n,omitempty"`
+}
+
+type RV struct {
+	K string `json:"k"` // int | null | str | lit | rd | call | upd
+	N int    `json:"n,omitempty"`
+	S string `json:"s,omitempty"` // str: the string ([a-z0-9]+)
 	L *Lit   `json:"l,omitempty"`
 	P *Place `json:"p,omitempty"`
+	// upd: the right-hand side of a compound assignment `P op= c` (Model.Heap.RV.upd): as the
+	// right-hand side of `setIdx B Key` with P = B[Key] it is rendered `B[Key] .= 'c';` (`+=`, `*=`,
+	// `??=`), anywhere else as the expression `P . 'c'` (`+`, `*`, `??`)
+	U *Upd `json:"u,omitempty"`
 	// call: the result of a call that returns what place P holds (Model.Heap.RV.call), rendered
 	// per kind of place: $o->getP() for a property, at(<container>, k) for an element (the
 	// callee indexes its by-value copy of the container: same inner array object), and — the
@@ -91,6 +104,34 @@ func RRd(p *Place) *RV             { return &RV{K: "rd", P: p} }
 func RCall(p *Place) *RV           { return &RV{K: "call", P: p} }
 func RLit(l Lit) *RV               { ll := l; return &RV{K: "lit", L: &ll} }
 func LInt(n int) Lit               { return Lit{K: "li", N: n} }
+func LStr(s string) Lit            { return Lit{K: "ls", S: s} }
+func RStr(s string) *RV            { return &RV{K: "str", S: s} }
+func RUpd(p *Place, u Upd) *RV     { uu := u; return &RV{K: "upd", P: p, U: &uu} }
+func UCat(s string) Upd            { return Upd{K: "concat", S: s} }
+func UAdd(n int) Upd               { return Upd{K: "add", N: n} }
+func UMul(n int) Upd               { return Upd{K: "mul", N: n} }
+func UCoalesce(n int) Upd          { return Upd{K: "coalesce", N: n} }
+
+// compound assignment on an element: `b[k] op= c`
+func cmpd(b *Place, k IKey, u Upd) Op { return Op{K: "setIdx", B: b, Key: kp(k), R: RUpd(Ix(b, k), u)} }
+
+func (p *Place) equal(q *Place) bool {
+	if p == nil || q == nil {
+		return p == q
+	}
+	if p.K != q.K || p.X != q.X || p.P != q.P {
+		return false
+	}
+	if p.K == "i" {
+		return *p.Key == *q.Key && p.B.equal(q.B)
+	}
+	return true
+}
+
+// is the statement a compound assignment on the element it stores to?
+func (o Op) compound() bool {
+	return o.K == "setIdx" && o.Key != nil && o.R != nil && o.R.K == "upd" && o.R.P.equal(Ix(o.B, *o.Key))
+}
 func LArr(items ...Lit) Lit        { return Lit{K: "la", Items: items} }
 func LRd(p *Place) Lit             { return Lit{K: "rd", P: p} }
 func kp(k IKey) *IKey              { kk := k; return &kk }
@@ -145,6 +186,8 @@ func (l Lit) tok() string {
 		return fmt.Sprintf("li %d", l.N)
 	case "ln":
 		return "ln"
+	case "ls":
+		return "ls " + l.S
 	case "rd":
 		return "lr " + l.P.tok()
 	}
@@ -162,6 +205,13 @@ func (r *RV) tok() string {
 		return fmt.Sprintf("int %d", r.N)
 	case "null":
 		return "null"
+	case "str":
+		return "str " + r.S
+	case "upd":
+		if r.U.K == "concat" {
+			return "upd " + r.P.tok() + " concat " + r.U.S
+		}
+		return fmt.Sprintf("upd %s %s %d", r.P.tok(), r.U.K, r.U.N)
 	case "lit":
 		return "lit " + r.L.tok()
 	case "call":
@@ -254,6 +304,8 @@ func (r *renderer) lit(l Lit) string {
 		return fmt.Sprint(l.N)
 	case "ln":
 		return "null"
+	case "ls":
+		return "'" + l.S + "'"
 	case "rd":
 		return r.place(l.P)
 	}
@@ -270,6 +322,11 @@ func (r *renderer) rv(v *RV) string {
 		return fmt.Sprint(v.N)
 	case "null":
 		return "null"
+	case "str":
+		return "'" + v.S + "'"
+	case "upd":
+		op, c := v.U.opArg()
+		return "(" + r.place(v.P) + " " + op + " " + c + ")"
 	case "lit":
 		return r.lit(*v.L)
 	case "call":
@@ -289,7 +346,24 @@ func (r *renderer) callOf(p *Place) string {
 	return fmt.Sprintf("ident(%s)", r.varName(p.X))
 }
 
+// binary operator and constant of an update
+func (u *Upd) opArg() (string, string) {
+	switch u.K {
+	case "concat":
+		return ".", "'" + u.S + "'"
+	case "add":
+		return "+", fmt.Sprint(u.N)
+	case "mul":
+		return "*", fmt.Sprint(u.N)
+	}
+	return "??", fmt.Sprint(u.N)
+}
+
 func (r *renderer) stmt(o Op) string {
+	if o.compound() {
+		op, c := o.R.U.opArg()
+		return fmt.Sprintf("%s[%s] %s= %s;", r.place(o.B), r.key(*o.Key), op, c)
+	}
 	switch o.K {
 	case "setVar":
 		x := r.varName(o.X)
